@@ -131,15 +131,19 @@ def arity(cmd):
     return "n" if slots[0][1] else "1"
 
 
-def execute(cmd, arrays, params, fuzzy_inputs=None):
-    """Run the real command.  Returns ("ok", result) | ("err", exception)."""
+def execute(cmd, arrays, params, fuzzy_inputs=None, reverse_keywords=False):
+    """Run the real command.  Returns ("ok", result) | ("err", exception).  reverse_keywords: pass the keyword arguments in the
+    opposite order (B before A, Weights before InFieldNames): the order in which named arguments are written means nothing."""
     if fuzzy_inputs is None:
         fuzzy_inputs = SIG.input_fuzz(cmd) == "fz"
     prods = [producer(PRODUCER_NAMES[i % len(PRODUCER_NAMES)] + ("" if i < len(PRODUCER_NAMES) else str(i)), a, fuzzy_inputs) for i, a in enumerate(arrays)]
     inst = cls_of(cmd)("res")
     try:
         with numpy.errstate(all="ignore"):
-            return ("ok", inst.execute(**kwargs_for(cmd, prods, params)))
+            kw = kwargs_for(cmd, prods, params)
+            if reverse_keywords:
+                kw = dict(reversed(list(kw.items())))
+            return ("ok", inst.execute(**kw))
     except Exception as exc:  # classified by the caller
         return ("err", exc)
 
@@ -278,7 +282,8 @@ def judge(pid, op, params, cols, res, shape, viols, tag, counters, V, ref=None, 
 def presets_small(cmd, n=1):
     """1-3 representative parameter presets per data command (DESIGN.md section 3, "Command presets")."""
     if cmd in ("WeightedSum", "WeightedMean", "FuzzyWeightedUnion"):
-        return [{"Weights": [1, 0.5, 2, 3, 1][:n]}, {"Weights": [2] * n}]
+        # (a weight of 0 switches an input's VALUE off, never its missing cells, its shape or its place in the graph)
+        return [{"Weights": [1, 0.5, 2, 3, 1][:n]}, {"Weights": [2] * n}] + ([{"Weights": [1, 0, 2, 0, 1][:n]}, {"Weights": [0, 1, 0.5, 1, 0][:n]}] if n >= 2 else [])
     if cmd == "FuzzySelectedUnion":
         return [{"TruestOrFalsest": "Truest", "NumberToConsider": 1}, {"TruestOrFalsest": "Falsest", "NumberToConsider": max(1, n - 1)},
                 {"TruestOrFalsest": "Truest", "NumberToConsider": n}]
